@@ -211,6 +211,11 @@ class Prop:
         """re-execute a replay file's failing input on the real code; returns the violation dict or None"""
         return self.oracle(obj["case"])
 
+    def deep_search(self, rng):
+        """failing-input search beyond the line-protocol cases (only run when a step broke or in the thorough
+        tier): e.g. real-time scenarios. Returns a list of violation dicts."""
+        return []
+
 
 def load_known():
     p = os.path.join(ROOT, "known_findings.json")
@@ -299,11 +304,19 @@ def run_check(prop: Prop, tier: str, seed: int) -> int:
     for _, t in cases:
         tags[t] = tags.get(t, 0) + 1
     impl_out = []
+    stuck = 0
     for l in lines:
+        if stuck >= 3:
+            # the real code repeatedly failed to come back within the scenario's time budget: do not
+            # spend the whole run on it — the cases evaluated so far go to the failing-input search
+            impl_out.append("skipped-after-timeouts")
+            continue
         try:
             impl_out.append(prop.impl(l))
         except Exception as e:  # harness bug or unexpected exception kind
             impl_out.append("harness-exc " + type(e).__name__ + ": " + str(e)[:100])
+            if type(e).__name__ in ("RealTimeLimit", "TimeLimit", "Spin", "Deadlock"):
+                stuck += 1
     disagreements = []
     model_out = None
     if ok_model:
@@ -357,6 +370,8 @@ def run_check(prop: Prop, tier: str, seed: int) -> int:
         for l in pool:
             if l in seen:
                 continue
+            if stuck >= 3 and len(violations) >= 2:
+                break
             seen.add(l)
             oracle_runs += 1
             try:
@@ -368,6 +383,11 @@ def run_check(prop: Prop, tier: str, seed: int) -> int:
                 violations.append(v)
                 if len(violations) >= 20:
                     break
+        if len(violations) < 20:
+            try:
+                violations += prop.deep_search(rng) or []
+            except Exception:
+                broken.append(("deep-search", traceback.format_exc()[-600:]))
     cov["oracle_runs"] = oracle_runs
 
     # 6 report
